@@ -44,11 +44,11 @@ def plan(tier, seed):
         for T in TS:
             for std in ("wb", "axil", "axi"):
                 for topo in ("shared", "alone", "crossbar"):
-                    kinds = ["all"] if std == "wb" else ["all", "resp", "addr"]
+                    kinds = ["all"] if std == "wb" else ["all", "resp", "addr", "aw", "w"]
                     for kind in kinds:
                         if topo == "crossbar" and kind != "all":
                             continue
-                        for mf in range(0, horizon, step if topo != "crossbar" else 8 * step):
+                        for mf in range(0, horizon, (step if kind in ("all", "resp") else 2 * step) if topo != "crossbar" else 8 * step):
                             cases.append({"std": std, "topo": topo, "T": T, "kind": kind, "mute_from": mf,
                                           "seed": "%d/C11/%s/%s/%d/%s/%d/%d" % (seed, std, topo, T, kind, mf, rep)})
                     for lat in (T - 2, T - 1, T):
@@ -208,15 +208,18 @@ def run_axi(case, rng, full):
             for i, t in enumerate(writes):
                 t["beats"] = [((mi << 28) | (i << 16) | (k << 12) | rng.getrandbits(12), 0xf) for k in range(t["len"] + 1)]
             reads = [{"addr": addr(i), "len": rng.choice([0, 1, 3]), "size": 2, "burst": 1, "id": 0} for i in range(nr)]
-            mags.append(bench.add(AXIMaster(m, writes, reads, rng, order=rng.choice(["together", "aw_first"]), max_out=1,
+            mags.append(bench.add(AXIMaster(m, writes, reads, rng, order="together", max_out=1,
                                             p_aw=rng.choice([1.0, 0.5]), p_w=1.0, p_ar=rng.choice([1.0, 0.5]), name="m%d" % mi)))
         else:
             writes = [{"addr": addr(i), "data": (mi << 28) | (i << 16) | rng.getrandbits(16), "strb": 0xf, "prot": mi} for i in range(nw)]
             reads = [{"addr": addr(i), "prot": mi} for i in range(nr)]
-            mags.append(bench.add(AXILMaster(m, writes, reads, rng, order=rng.choice(["together", "aw_first"]), max_out=1,
+            mags.append(bench.add(AXILMaster(m, writes, reads, rng, order="together", max_out=1,
                                              p_aw=rng.choice([1.0, 0.5]), p_w=1.0, p_ar=rng.choice([1.0, 0.5]), name="m%d" % mi)))
         mmons.append(port_monitors(bench, m, "m%d" % mi, "responses"))
-    mk = {"all": "all", "resp": ("b", "r"), "addr": ("aw", "ar"), "slow": None}[case["kind"]]
+    # 'addr': the slave stops accepting any request channel (address and data) but still answers what it accepted before;
+    # address and data are presented together so that a request is never half accepted by a slave and half by the timeout
+    # 'aw' / 'w': exactly one write request channel stalls for ever while the other one keeps accepting
+    mk = {"all": "all", "resp": ("b", "r"), "addr": ("aw", "ar", "w"), "aw": ("aw",), "w": ("w",), "slow": None}[case["kind"]]
     for si, s in enumerate(slaves):
         kw = {}
         if case["kind"] == "slow" and si == faulty:
